@@ -47,7 +47,8 @@ def required(tier):
     return ["inserted:first", "inserted:last", "inserted:between_N_lines_of_one_tick", "section:sync", "section:events", "section:instrument",
             "family:blank", "family:foreign", "family:unsupported_index", "family:header_like", "claimed_by:NoteEvent", "claimed_by:StarPowerEvent",
             "claimed_by:TrackEvent", "claimed_by:BPMEvent", "claimed_by:TimeSignatureEvent", "claimed_by:AnchorEvent", "claimed_by:TextEvent",
-            "claimed_by:SectionEvent", "claimed_by:LyricEvent", "moved", "deleted", "disjointness_probe", "inserted:copy_of_a_line_valid_elsewhere_in_the_chart", "inserted:more_than_100_in_one_section"]
+            "claimed_by:SectionEvent", "claimed_by:LyricEvent", "moved", "deleted", "disjointness_probe", "inserted:copy_of_a_line_valid_elsewhere_in_the_chart", "inserted:more_than_100_in_one_section",
+            "direct_section_entry:generator", "direct_section_entry:iterator", "direct_section_entry:list"]
 
 
 def shards(tier, seed):
@@ -308,12 +309,71 @@ def run_case(rec, rng, case, idx):
                           "unparsable-line-changes-events")
             ok_all = False
         elif n_ins:
+            if stage == "inserted" and not direct_entry_stage(rec, secs, out.chart):
+                ok_all = False
+                continue
             rec.cls(stage)
             rec.key(text)
         if rec.full:
             return
     if idx < 1:
         rec.sample({"inserted_lines": n_ins, "mutated_section_head": mutated[-1][1][:8]})
+
+
+_DIRECT = 0
+
+
+def direct_entry_stage(rec, secs, chart):
+    """the sections with their inserted lines, handed straight to the documented per-section entry points ("an iterable of
+    strings") as a generator / one-shot iterator / list (rotating): every unclaimed line is reported exactly once there too,
+    and the decoded events are those of the whole-chart parse"""
+    global _DIRECT
+    import chartparse.globalevents as G
+    import chartparse.instrument as I
+    import chartparse.sync as S
+
+    from vmon import env
+
+    be = chart.sync_track.bpm_events
+    by_header = {model.header(i, d): (i, d) for i, d in model.ALL_PAIRS}
+    for name, body in secs:
+        k = kind_of(name)
+        if k is None or name not in KNOWN_HEADERS:
+            continue
+        expected = unclaimed_in_sections([(name, body)])
+        if not expected:
+            continue
+        _DIRECT += 1
+        fname, form = [("generator", lambda b: (x for x in b)), ("iterator", lambda b: iter(list(b))), ("list", list)][_DIRECT % 3]
+        case = {"sections": [[n_, list(b_)] for n_, b_ in secs], "stage": "direct:" + fname, "direct": name}
+        env.LOG.drain()
+        rec.ev()
+        try:
+            if k == "sync":
+                got, want = observe.observe_sync(S.SyncTrack.from_chart_lines(be.resolution, form(body))), observe.observe_sync(chart.sync_track)
+            elif k == "events":
+                got, want = observe.observe_global(G.GlobalEventsTrack.from_chart_lines(form(body), be)), observe.observe_global(chart.global_events_track)
+            else:
+                i, d = by_header[name]
+                inst, diff = harness.Instrument[i], harness.Difficulty[d]
+                got = observe.observe_track(I.InstrumentTrack.from_chart_lines(inst, diff, form(body), be))
+                want = observe.observe_track(chart.instrument_tracks[inst][diff])
+        except Exception as e:  # noqa
+            env.LOG.drain()
+            rec.violation("locality", f"[{name}] with {expected} unparsable lines handed to its from_chart_lines as a {fname}: raised {harness.exc_str(e)}",
+                          case, "direct-entry-raised")
+            return False
+        logs = [m for (lg, lvl, m) in env.LOG.drain() if (lg == "chartparse" or lg.startswith("chartparse.")) and lvl in ("WARNING", "ERROR", "CRITICAL")]
+        if len(logs) != expected:
+            rec.violation("warnings", f"[{name}] handed to its from_chart_lines as a {fname}: {expected} lines are claimed by no kind but {len(logs)} "
+                          "reports were recorded on the chartparse loggers", case, f"direct-entry:{fname}:warnings!=unclaimed-lines")
+            return False
+        if got != want:
+            rec.violation("locality", f"[{name}] handed to its from_chart_lines as a {fname} decodes differently from the whole-chart parse", case,
+                          f"direct-entry:{fname}:differs")
+            return False
+        rec.cls(f"direct_section_entry:{fname}")
+    return True
 
 
 def disjointness_probe(rec, rng, n):
@@ -387,6 +447,9 @@ def replay(case, rec):
         rec.violation("locality", f"rejected with {harness.exc_str(out.exc)}", case)
         return
     check_dispatch(rec, log, out.logs, case)
+    if case.get("direct"):
+        for _ in range(3):  # once per form
+            direct_entry_stage(rec, [(n, b) for n, b in secs if n == case["direct"]], out.chart)
     if case.get("baseline_sections"):
         t0, o0, _ = parse_obs(rec, [(n, b) for n, b in case["baseline_sections"]], None)
         if o0.ok and observe.digest(harness.obs(o0.chart)) != observe.digest(harness.obs(out.chart)):
